@@ -199,12 +199,22 @@ Definition dapply (o : dop) (ds : dstate) : dstate :=
 
 Inductive dinstr : Type :=
 | DOp (o : dop)           (* differentiable operator *)
-| DPlain (o : op S).      (* Operator.__call__ in place: partials are not touched *)
+| DPlain (o : op S).      (* Operator.__call__: the operator also acts on every partial derivative *)
+
+(* Operator._apply_partial: the operator itself (the equilibrium of a partial derivative is zero, so only its linear
+   part acts); PD overrides it: the density is a constant, its partials stay (reset=False) or become zero *)
+Definition apply_partial (o : op S) (s : sm) : sm :=
+  match o with
+  | OPD _ r => if r then mkSM (map (fun _ => t0) (st s)) (equ s) else s
+  | _ => apply o s
+  end.
+Definition map_partials {Kt} (o : op S) (l : list (Kt * sm)) : list (Kt * sm) :=
+  map (fun kv => (fst kv, apply_partial o (snd kv))) l.
 
 Definition dstep (i : dinstr) (ds : dstate) : dstate :=
   match i with
   | DOp o => dapply o ds
-  | DPlain o => mkD (apply o (d_main ds)) (d_p1 ds) (d_p2 ds) (d_ok ds)
+  | DPlain o => mkD (apply o (d_main ds)) (map_partials o (d_p1 ds)) (map_partials o (d_p2 ds)) (d_ok ds)
   end.
 Definition drun (prog : list dinstr) (ds : dstate) : dstate := fold_left (fun d i => dstep i d) prog ds.
 Definition dinit (s : sm) : dstate := mkD s [] [] true.
@@ -230,7 +240,7 @@ End Diff.
 
 Arguments LScalar {S}. Arguments LMatrix {S}. Arguments LShift {S}.
 Arguments mkDop {S}. Arguments mkD {S}. Arguments DOp {S}. Arguments DPlain {S}.
-Arguments drun {S}. Arguments dstep {S}. Arguments dapply {S}. Arguments dinit {S}.
+Arguments drun {S}. Arguments dstep {S}. Arguments apply_partial {S}. Arguments map_partials {S} {Kt}. Arguments dapply {S}. Arguments dinit {S}.
 Arguments jacobian {S}. Arguments hessian {S}. Arguments dstate_eqb {S}.
 Arguments d_main {S}. Arguments d_p1 {S}. Arguments d_p2 {S}. Arguments d_ok {S}.
 Arguments apply_order1 {S}. Arguments apply_order2 {S}. Arguments apply_lin {S}.
